@@ -13,6 +13,8 @@ from fractions import Fraction
 
 import numpy as np
 
+from pwlib.share import shcopy
+
 from pwlib.canon import err_name, flat
 from pwlib.engine import Case
 from pwlib.proto import Line
@@ -20,6 +22,7 @@ from props import ct_steps as S
 
 ID = "C04"
 TARGETS = ["PW.Props.C04", "PW.Props.C04Gen"]
+INTERN_WITHIN_CASE = True   # see pwlib/engine.py: equal-valued step arguments are one object inside a program
 RULE = ("scripts of 3..40 operations from four streams (lattice: exact steps; float: Rodrigues / reorient / unit "
         "conversion / random matrices; nonaffine: lattice scripts where 30% of the steps are exactly invertible small-integer "
         "unimodular explicit matrices whose last row is not 0 0 0 1; malformed: refused step parameters, unknown tag names, reads before assignment, "
@@ -134,7 +137,7 @@ def run_op(cm, op):
         elif k == "step":
             r = S.call_step(cm, op[1])
         elif k == "set":
-            setattr(cm, op[1], np.array(op[2], dtype=np.float64).reshape(-1, 3))
+            setattr(cm, op[1], np.array(np.reshape(op[2], (-1, 3)), dtype=np.float64))
             r = None
         elif k == "setbad":
             setattr(cm, op[1], np.zeros(BAD_SHAPES[op[2]]))
@@ -145,7 +148,7 @@ def run_op(cm, op):
                 raise AssertionError("attribute read has shape %s" % (r.shape,))
             return [int(r.shape[0])] + flat(r)
         elif k == "do":
-            P = np.array(op[1], dtype=np.float64).reshape(-1, 3)
+            P = np.array(np.reshape(op[1], (-1, 3)), dtype=np.float64)
             arg = P[0].copy() if op[2] else P.copy()
             r = np.asarray(cm.do_transform(arg, op[3], op[4]))
             if op[2]:
@@ -171,13 +174,13 @@ def op_tokens(ln, op):
     if k == "step":
         return S.step_tokens(ln.tok("step"), op[1])
     if k == "set":
-        return ln.tok("set", op[1]).vecs(np.array(op[2], dtype=np.float64).reshape(-1, 3))
+        return ln.tok("set", op[1]).vecs(np.array(np.reshape(op[2], (-1, 3)), dtype=np.float64))
     if k == "setbad":
         return ln.tok("setbad", op[1])
     if k == "get":
         return ln.tok("get", op[1])
     if k == "do":
-        return S.pts_tokens(ln.tok("do"), np.array(op[1], dtype=np.float64).reshape(-1, 3), op[2]).tok(op[3], op[4])
+        return S.pts_tokens(ln.tok("do"), np.array(np.reshape(op[1], (-1, 3)), dtype=np.float64), op[2]).tok(op[3], op[4])
     raise ValueError(k)
 
 
@@ -338,13 +341,13 @@ def oracle(spec, bound):
             pairs = [(a, b) for a in names for b in names]
             if len(pairs) > 9:
                 pairs = rng.sample(pairs, 9)
-            snapshot = {(a, b): np.asarray(cm.do_transform(probe.copy(), a, b)).copy() for a, b in pairs}
+            snapshot = {(a, b): np.asarray(cm.do_transform(shcopy(probe), a, b)).copy() for a, b in pairs}
     # --- stability: later appends / new tags / re-tagging of other names never change a conversion -----------
     if snapshot:
         for (a, b), before in snapshot.items():
             if a in retagged or b in retagged:
                 continue
-            after = np.asarray(cm.do_transform(probe.copy(), a, b))
+            after = np.asarray(cm.do_transform(shcopy(probe), a, b))
             if after.shape != before.shape or not np.array_equal(after, before):
                 bad("stable/append", "conversion %r -> %r of %s changed from %s to %s after later operations"
                     % (a, b, probe.tolist(), before.tolist(), after.tolist()))
@@ -364,21 +367,21 @@ def oracle(spec, bound):
         return k_ if all(a[2] for a in span) else "path-independent/non-affine-explicit-matrix"
 
     for a, b, c in triples:
-        ab = cm.do_transform(probe.copy(), a, b)
-        abc = np.asarray(cm.do_transform(np.asarray(ab).copy(), b, c))
-        ac = np.asarray(cm.do_transform(probe.copy(), a, c))
+        ab = cm.do_transform(shcopy(probe), a, b)
+        abc = np.asarray(cm.do_transform(shcopy(np.asarray(ab)), b, c))
+        ac = np.asarray(cm.do_transform(shcopy(probe), a, c))
         if not np.allclose(abc, ac, rtol=0, atol=tol):
             bad(key("path-independent", a, b, c), "%r -> %r -> %r gives %s, %r -> %r gives %s" % (a, b, c, abc.tolist(), a, c, ac.tolist()))
     pairs = [(a, b) for a in names for b in names]
     if len(pairs) > 12:
         pairs = rng.sample(pairs, 12)
     for a, b in pairs:
-        there = cm.do_transform(probe.copy(), a, b)
-        back = np.asarray(cm.do_transform(np.asarray(there).copy(), b, a))
+        there = cm.do_transform(shcopy(probe), a, b)
+        back = np.asarray(cm.do_transform(shcopy(np.asarray(there)), b, a))
         if not np.allclose(back, probe, rtol=0, atol=tol):
             bad(key("round-trip", a, b), "%r -> %r -> %r turns %s into %s" % (a, b, a, probe.tolist(), back.tolist()))
         # the attribute protocol agrees with do_transform
-        setattr(cm, a, probe.copy())
+        setattr(cm, a, shcopy(probe))
         via = np.asarray(getattr(cm, b))
         if not np.array_equal(via, np.asarray(there)):
             bad("read/attribute-vs-do_transform", "cm.%s = p; cm.%s gives %s, do_transform gives %s" % (a, b, via.tolist(), np.asarray(there).tolist()))
